@@ -255,6 +255,8 @@ func monitorClauses(c caseInfo, toks []string, outs []string, st *implState) []f
 					fails = append(fails, peekConservation(c, outs[c.nbuild:], st, "next", "", "close")...)
 				case "runs":
 					fails = append(fails, runsConservation(c, outs[c.nbuild:], st)...)
+				case "compact", "compactw":
+					fails = append(fails, compactConservation(c, outs[c.nbuild:], st)...)
 				}
 			}
 			return fails
